@@ -187,6 +187,27 @@ def run(ctx):
                     viol.append({"what": "key block emitted for a header written by another implementation is ill-framed (%s): %s" % (how, "; ".join(errs)),
                                  "input": {"header": hs[:200], "choices": choice}, "expected": "framing rules", "observed": out[:160]})
     dist["foreign_header_strings"] = nforeign
+    # the public attribute kb.header re-bound to another Header (other version / other blocks) between two wraps: the second
+    # key block must be the one of the NEW header (framing of its version, opens to its fields)
+    for v1, v2 in (("B", "D"), ("D", "A"), ("A", "B"), ("C", "D")):
+        c1 = t.gen_case(rng, version=v1, profile="few", keylen=16, mask=None)
+        c2 = t.gen_case(rng, version=v2, profile=rng.choice(["none", "few"]), keylen=16, mask=None)
+        kbpk = rng.randbytes(16)
+        try:
+            kbo = tr31.KeyBlock(kbpk, t.impl_header(c1))
+            kbo.wrap(c1["key"])
+            h2 = t.impl_header(c2)
+            kbo.header = h2
+            out = kbo.wrap(c2["key"])
+            errs = framing_errors(c2, out)
+            u = t.impl_unwrap(kbpk, out)
+            if u != ("OK", core.show_header(h2), core.show(c2["key"])):
+                errs.append("does not open to the new header and key")
+        except Exception as e:  # noqa: BLE001
+            errs, out = ["exception " + repr(e)[:120]], ""
+        if errs:
+            viol.append({"what": "wrap after kb.header was re-bound to another Header: " + "; ".join(errs),
+                         "input": {"first": c1["hdr16"], "second": c2["hdr16"], "kbpk": kbpk.hex()}, "expected": "key block of the second header", "observed": out[:120]})
     # copies of a header (copy.copy / deepcopy / pickle) and a Blocks object moved to another header: the serialisation of
     # the copy must be that of a header built from scratch with the same values (block size of ITS version, not of the original)
     import copy
